@@ -8,6 +8,7 @@ import (
 	"fmt"
 	"go/token"
 	"go/types"
+	"os"
 	"sort"
 	"strings"
 
@@ -812,6 +813,139 @@ func mergeLeaves(v ssa.Value) []leaf {
 	return out
 }
 
+// cursorBehindScan: the invariant cursor ≤ H by induction over the scan loop: H is the loop's position variable (a
+// header φ), the cursor is a header φ of the same loop, cursor ≤ position holds on entry, and on every back edge
+// the new position is ≥ the new cursor under the hypothesis that the old position was ≥ the old cursor.
+func (c *Ctx) cursorBehindScan(fi *FuncInfo, e *Emit, q *ssa.Slice) bool {
+	sl := c.scanOf(e)
+	if sl == nil || sl.P == nil {
+		// a loop that walks a precomputed path (the optimizing parser): position and cursor are both header φs
+		// of the loop the emission stands in, and H is the position itself
+		hp, ok1 := stripConv(q.High).(*ssa.Phi)
+		cp, ok2 := stripConv(q.Low).(*ssa.Phi)
+		if !ok1 || !ok2 || hp.Block() != cp.Block() {
+			return false
+		}
+		l := fi.loopOf(hp.Block())
+		if l == nil || l.Header != hp.Block() {
+			return false
+		}
+		inv := Fact{linAtom(cp.Name()).sub(linAtom(hp.Name())), LE}
+		for i, p := range l.Header.Preds {
+			goal := fi.lin(cp.Edges[i]).sub(fi.lin(hp.Edges[i]))
+			if !l.Blocks[p] {
+				if !fi.proveLE0(goal, fi.condsAt(p), nil, map[string]bool{}, 0) {
+					return false
+				}
+				continue
+			}
+			conds := fi.edgeConds(p, l.Header)
+			if !fi.proveLE0(goal, conds, []Fact{inv}, map[string]bool{}, 0) && !fi.refute(conds, []Fact{{goal.scale(-1).addc(1), LE}, inv}, 0) {
+				return false
+			}
+		}
+		return true
+	}
+	// invariants of the scan loops in front of this one (same function): a later loop starts where an earlier one
+	// stopped, with that loop's position and cursor
+	var earlier []Fact
+	scans, _ := c.scanLoops()
+	for _, s2 := range scans {
+		if s2.Fn != sl.Fn || s2 == sl || s2.P == nil || s2.L.Header.Index >= sl.L.Header.Index || len(s2.Emits) == 0 {
+			continue
+		}
+		if q2 := c.literalSliceOf(s2.Emits[0]); q2 != nil {
+			if inv, ok := c.scanInvariant(fi, s2, q2, nil); ok {
+				earlier = append(earlier, inv)
+			}
+		}
+	}
+	inv, ok := c.scanInvariant(fi, sl, q, earlier)
+	if !ok {
+		return false
+	}
+	// with the invariant at the header, cursor ≤ H at the emission (H is the position, or the position minus a
+	// backward extension that a common-suffix helper bounds by the literals in front of it)
+	goal := fi.lin(q.Low).sub(fi.lin(q.High))
+	hyps := append([]Fact{inv}, earlier...)
+	okG := fi.proveAt(goal, e.Block, hyps) || fi.proveByCases(goal, e.Block, hyps) ||
+		fi.refute(fi.condsAt(e.Block), append([]Fact{{goal.scale(-1).addc(1), LE}}, hyps...), 0)
+	if !okG && os.Getenv("LZDBG7") != "" {
+		fmt.Fprintf(os.Stderr, "DBG cursor≤H %s: invariant %s proved, goal %s ≤ 0 not proved at block %d; facts %s\n", e.Key, inv, goal, e.Block.Index, factStrings(fi.factsAt(e.Block)))
+	}
+	return okG
+}
+
+// literalSliceOf: the slice p[cursor:H] whose length is the LitLen of the emission.
+func (c *Ctx) literalSliceOf(e *Emit) *ssa.Slice {
+	call, _ := stripConv(e.LitLen).(*ssa.Call)
+	if call == nil || len(call.Call.Args) != 1 {
+		return nil
+	}
+	q, _ := call.Call.Args[0].(*ssa.Slice)
+	if q == nil || q.Low == nil || q.High == nil {
+		return nil
+	}
+	return q
+}
+
+// scanInvariant proves cursor ≤ position at the header of scan loop sl by induction (extra: facts that may be
+// used on the entry edges) and returns it as a fact over the two header φs.
+func (c *Ctx) scanInvariant(fi *FuncInfo, sl *ScanLoop, q *ssa.Slice, extra []Fact) (Fact, bool) {
+	e := sl.Emits[0]
+	l := sl.L
+	hp := sl.P
+	// the cursor's header φ in the scan loop: q.Low itself, or the φ of the header its web runs through
+	var cp *ssa.Phi
+	if p, ok := stripConv(q.Low).(*ssa.Phi); ok && p.Block() == l.Header {
+		cp = p
+	} else {
+		for _, in := range l.Header.Instrs {
+			p, ok := in.(*ssa.Phi)
+			if !ok {
+				break
+			}
+			if p == hp || !isIntType(p.Type()) {
+				continue
+			}
+			for _, lf := range phiLeaves(q.Low) {
+				if lf.V == ssa.Value(p) {
+					cp = p
+				}
+			}
+		}
+	}
+	if cp == nil || hp.Block() != l.Header {
+		return Fact{}, false
+	}
+	inv := Fact{linAtom(cp.Name()).sub(linAtom(hp.Name())), LE}
+	for i, p := range l.Header.Preds {
+		nh, nc := fi.lin(hp.Edges[i]), fi.lin(cp.Edges[i])
+		goal := nc.sub(nh)
+		if !l.Blocks[p] {
+			if !fi.proveLE0(goal, fi.condsAt(p), extra, map[string]bool{}, 0) && !fi.refute(fi.condsAt(p), append([]Fact{{goal.scale(-1).addc(1), LE}}, extra...), 0) {
+				if os.Getenv("LZDBG7") != "" {
+					fmt.Fprintf(os.Stderr, "DBG cursor≤H %s: base case %s ≤ 0 fails on entry edge from block %d\n", e.Key, goal, p.Index)
+				}
+				return Fact{}, false
+			}
+			continue
+		}
+		conds := fi.edgeConds(p, l.Header)
+		if fi.proveLE0(goal, conds, []Fact{inv}, map[string]bool{}, 0) {
+			continue
+		}
+		// the edge values may themselves be merged (position behind the re-index loop, clipped cursor)
+		if !fi.refute(conds, []Fact{{goal.scale(-1).addc(1), LE}, inv}, 0) {
+			if os.Getenv("LZDBG7") != "" {
+				fmt.Fprintf(os.Stderr, "DBG cursor≤H %s: step %s ≤ 0 fails on back edge from block %d (conds %s)\n", e.Key, goal, p.Index, factStrings(fi.factsOf(conds)))
+			}
+			return Fact{}, false
+		}
+	}
+	return inv, true
+}
+
 func ruleTile(c *Ctx) {
 	byFn := map[*ssa.Function][]*Emit{}
 	var order []*ssa.Function
@@ -861,6 +995,15 @@ func ruleTile(c *Ctx) {
 				}
 			}
 			nextOK[e] = found
+			// the literal slice is well-formed: cursor ≤ H at the emission. It holds because the scan position is
+			// moved to the new cursor after every emission (and only forward otherwise); a scan that goes on inside
+			// the match it has just emitted slices p[cursor:H] with cursor > H
+			{
+				goal := fi.lin(q.Low).sub(h)
+				okLe := fi.proveAt(goal, e.Block, nil) || fi.proveByCases(goal, e.Block, nil) || c.cursorBehindScan(fi, e, q)
+				c.check(okLe, e.Key+":cursor≤H", e.Pos, "the literal slice is well-formed: cursor ≤ H at the emission",
+					fmt.Sprintf("cursor %s ≤ H %s is not established at the emission: when the scan position is not moved behind a match (or moved back), the next emission slices the literals with a low bound above the high bound and panics, or repeats bytes", fi.lin(q.Low), h))
+			}
 			if found {
 				c.ok(e.Key+":cursor", e.Pos, "literals = %s[%s:%s]; next cursor = %s = H + MatchLen", q.X.Name(), fi.lin(q.Low), h, next)
 			} else {
